@@ -101,8 +101,10 @@ def _merge_chains(prog, rep, R, c):
     site = method_site(prog, c, "merge_chains")
     body = [s for s in fn.body if not (isinstance(s, ast.Expr) and isinstance(s.value, ast.Constant))]
     whiles = [s for s in body if isinstance(s, ast.While)]
+    if not whiles and _merge_chains_recursive(prog, rep, R, c, site, body):
+        return
     if len(whiles) != 1:
-        # loop-free implementations (e.g. recursion) are not modelled
+        # other loop-free implementations are not modelled
         rep.undecided(R, site, "Chain.merge_chains", "expected exactly one top-level while loop")
         return
     w = whiles[0]
@@ -241,6 +243,13 @@ def rule_merge_transforms(prog: Program, rep: Report, R: str):
                 rep.holds(R, site, f"merge_transforms:recursive:{kk}", what, nontrivial=False)
         return
     if len(whiles) != 1:
+        # the loop may live in a module-level helper called once, and / or behind an if/else on the nesting test:
+        # rebuild the flat shape  [prologue..., while, epilogue..., return]  and analyse that
+        flat = _flatten_merge_body(prog, c, body)
+        if flat is not None:
+            body = flat
+            whiles = [s2 for s2 in body if isinstance(s2, ast.While)]
+    if len(whiles) != 1:
         rep.undecided(R, site, "merge_transforms", "expected exactly one while loop")
         return
     w = whiles[0]
@@ -252,11 +261,18 @@ def rule_merge_transforms(prog: Program, rep: Report, R: str):
         return
     V = tn[0]
     acc = None
+    mode = "append"
     for n in _find(w, ast.Call):
         if isinstance(n.func, ast.Attribute) and n.func.attr == "append" and isinstance(n.func.value, ast.Name):
             acc = n.func.value.id
+        if isinstance(n.func, ast.Attribute) and n.func.attr == "insert" and isinstance(n.func.value, ast.Name) \
+                and len(n.args) == 2 and isinstance(n.args[0], ast.Constant) and n.args[0].value == 0:
+            acc, mode = n.func.value.id, "insert0"
     if acc is None:
-        rep.undecided(R, site, "merge_transforms", "no accumulating append found in the loop")
+        rep.undecided(R, site, "merge_transforms", "no accumulating append / insert(0, .) found in the loop")
+        return
+    if mode == "insert0":
+        _merge_transforms_insert0(prog, rep, R, c, site, body, w, wi, V, acc)
         return
     # prologue (skipping the early return guard)
     pro_stmts = [s for s in body[:wi] if not isinstance(s, ast.If)]
@@ -306,3 +322,135 @@ def rule_merge_transforms(prog: Program, rep: Report, R: str):
            "    return (Transformed(base_dist, Chain(list(reversed(bijections))).merge_chains()),)\n")
     want = eval_ref_method(prog, c, ref, [Vs, As])
     compare(rep, R, site, "merge_transforms:result", got, want, "result")
+
+
+
+def _flatten_merge_body(prog, c, body):
+    """[if nested: <stmts> else: return self]  ->  <stmts>;   `a, b = helper(x)` with a module-level helper that
+    contains the loop  ->  the helper's statements with its parameter bound, then the assignment of its return value."""
+    import copy
+    stmts = list(body)
+    # if/else on the nesting test with `return self` on one side
+    if len(stmts) == 1 and isinstance(stmts[0], ast.If) and stmts[0].orelse:
+        st = stmts[0]
+        def is_ret_self(b):
+            return len(b) == 1 and isinstance(b[0], ast.Return) and isinstance(b[0].value, ast.Name) and b[0].value.id == "self"
+        if is_ret_self(st.orelse):
+            stmts = list(st.body)
+        elif is_ret_self(st.body):
+            stmts = list(st.orelse)
+    elif stmts and isinstance(stmts[0], ast.If) and not stmts[0].orelse and len(stmts[0].body) == 1 and \
+            isinstance(stmts[0].body[0], ast.Return):
+        stmts = stmts[1:]
+    out = []
+    changed = False
+    for st in stmts:
+        call = None
+        if isinstance(st, ast.Assign) and isinstance(st.value, ast.Call) and isinstance(st.value.func, ast.Name):
+            call = st.value
+        if call is not None and call.func.id in c.module.functions and not call.keywords:
+            h = c.module.functions[call.func.id]
+            hb = [x for x in h.body if not (isinstance(x, ast.Expr) and isinstance(x.value, ast.Constant))]
+            params = [a.arg for a in h.args.args]
+            if any(isinstance(x, ast.While) for x in hb) and hb and isinstance(hb[-1], ast.Return) and \
+                    len(params) == len(call.args):
+                for pn, av in zip(params, call.args):
+                    out.append(ast.Assign([ast.Name(pn, ast.Store())], copy.deepcopy(av)))
+                out.extend(copy.deepcopy(hb[:-1]))
+                out.append(ast.Assign(copy.deepcopy(st.targets), copy.deepcopy(hb[-1].value)))
+                changed = True
+                continue
+        out.append(st)
+    if not changed and stmts == list(body):
+        return None
+    for x in out:
+        ast.fix_missing_locations(x)
+    return out
+
+
+def _merge_transforms_insert0(prog, rep, R, c, site, body, w, wi, V, acc):
+    """Variant that builds the list innermost-first with insert(0, .): start (self, []), step inserts the visited
+    level's bijection at the front and descends, result Transformed(innermost, Chain(list).merge_chains())."""
+    pro = eval_stmts(prog, c, [s2 for s2 in body[:wi] if not isinstance(s2, ast.If)], [], [V, acc])
+    compare(rep, R, site, "merge_transforms:start", pro, ("tuple", (SELF, ("list", ()))), "initial (level, collected)")
+    got = eval_stmts(prog, c, w.body, [V, acc], [V, acc])
+    Vs, As = ("sym", V.upper()), ("sym", acc.upper())
+    want = ("tuple", (("attr", Vs, "base_dist"),
+                      ("call", ("ext", "list.insert"), (As, C(0), ("attr", Vs, "bijection")), ())))
+    if has_unknown(got):
+        rep.undecided(R, site, "merge_transforms:step", f"unmodelled: {find_unknown(got)}")
+    else:
+        rep.check(equal(got, want), R, site, "merge_transforms:step",
+                  "inserts the visited level's bijection at the front, then descends",
+                  f"loop step differs: {explain(got, want)}")
+    t = ast.unparse(w.test).replace(" ", "")
+    rep.check(t == f"isinstance({V},AbstractTransformed)", R, site, "merge_transforms:until-base",
+              ast.unparse(w.test), f"loop test is {ast.unparse(w.test)}")
+    rets = [s2 for s2 in body[wi + 1:] if isinstance(s2, ast.Return)]
+    if not rets:
+        rep.undecided(R, site, "merge_transforms:result", "no return after the loop")
+        return
+    stmts = body[wi + 1:]
+    stmts = stmts[:stmts.index(rets[-1])] + [ast.Assign([ast.Name("_ret", ast.Store())], rets[-1].value)]
+    for s2 in stmts:
+        ast.fix_missing_locations(s2)
+    got = eval_stmts(prog, c, stmts, [V, acc], ["_ret"])
+    ref = ("def _tail(self, base_dist, bijections):\n"
+           "    return (Transformed(base_dist, Chain(bijections).merge_chains()),)\n")
+    want = eval_ref_method(prog, c, ref, [Vs, As])
+    compare(rep, R, site, "merge_transforms:result", got, want, "result (front-inserted list is already innermost-first)")
+
+
+
+FLATTEN_REC_REF = (
+    "def _flat(bijections):\n"
+    "    out = []\n"
+    "    for b in bijections:\n"
+    "        if isinstance(b, Chain):\n"
+    "            out.extend(RECURSE(b.bijections))\n"
+    "        else:\n"
+    "            out.append(b)\n"
+    "    return out\n")
+
+
+def _merge_chains_recursive(prog, rep, R, c, site, body) -> bool:
+    """merge_chains == Chain(H(self.bijections)) with a module-level helper H that flattens depth-first by recursion.
+    By induction on the nesting depth (hypothesis: the recursive call returns the flattened members in order) H is
+    order-preserving iff it walks its argument in order and splices H(b.bijections) in place of a nested Chain b."""
+    rets = [s2 for s2 in body if isinstance(s2, ast.Return)]
+    if len(body) != 1 or len(rets) != 1:
+        return False
+    rv = rets[0].value
+    if not (isinstance(rv, ast.Call) and ast.unparse(rv.func) == "Chain" and len(rv.args) == 1):
+        return False
+    inner = rv.args[0]
+    while isinstance(inner, ast.Call) and ast.unparse(inner.func) in ("tuple", "list") and len(inner.args) == 1:
+        inner = inner.args[0]
+    if not (isinstance(inner, ast.Call) and isinstance(inner.func, ast.Name) and inner.func.id in c.module.functions
+            and len(inner.args) == 1 and ast.unparse(inner.args[0]) == "self.bijections"):
+        return False
+    hname = inner.func.id
+    h = c.module.functions[hname]
+    recursive = [n for n in _find(h, ast.Call) if isinstance(n.func, ast.Name) and n.func.id == hname]
+    if not recursive or len(h.args.args) != 1:
+        return False
+    hq = f"{c.module.name}.{hname}"
+    S = ("sym", "SEQ")
+    got = Interp(prog, no_inline={hq}).apply_def(h, Env(), (c.module, None, None), [S], {})
+    from ..refs import prelude
+    env = Env(prelude(prog))
+    env.set("RECURSE", ("ext", hq))
+    want = Interp(prog, no_inline={hq}).apply_def(ast.parse(FLATTEN_REC_REF).body[0], env, (c.module, None, None), [S], {})
+
+    def norm(t):
+        if t[0] == "call" and t[1] in (("ext", "builtins.list"), ("ext", "builtins.tuple")) and len(t[2]) == 1:
+            t = t[2][0]
+        return as_flatmap(t)
+    rep.holds(R, site, "Chain.merge_chains:start", "flattening starts from self.bijections")
+    ok = compare(rep, R, site, "Chain.merge_chains:pass", norm(got), norm(want),
+                 "recursive flattening step (walk in order, splice the flattened members of a nested Chain in place)")
+    if ok:
+        rep.holds(R, site, "Chain.merge_chains:until-flat", "recursion reaches every nesting level (induction on depth)",
+                  nontrivial=False)
+        rep.holds(R, site, "Chain.merge_chains:result", "returns Chain(flattened)", nontrivial=False)
+    return True
